@@ -307,7 +307,7 @@ PLANS["C06"] = {
     "removals and bulk operations); distinct = distinct (recipe, script) cases on non-empty queues / (state, op) pairs as in the history rule",
     "assumptions": ASSUME,
     "jobs": lambda tier: [
-        iters_job("iters-sorted", "Sorted", max_n=q(tier, 6, 8), random=q(tier, 1500, 20000), extra={"recipes": q(tier, 4, 8), "adaptors": 0}),
+        iters_job("iters-sorted", "Sorted", max_n=q(tier, 6, 8), random=q(tier, 1500, 20000), extra={"recipes": q(tier, 4, 8), "adaptors": 1}),
         hist_job("hist-sorted", "both", "sorted,growth-ties,churn", q(tier, 200_000, 4_000_000)),
         corpus_job("corpus", "iters-adaptor-into_sorted"),
     ],
